@@ -666,21 +666,27 @@ where
 {
     fn decode<D: Decoder + ?Sized>(
         decoder: &mut D,
-        _plugin: &Plugin,
-        _session: &mut Session,
+        plugin: &Plugin,
+        session: &mut Session,
     ) -> io::Result<Self> {
         use bitvec::{mem::bits_of, vec::BitVec};
-        use std::io::Write;
 
+        // mirror of `Encode`: the length in bits, then every storage element
+        // through `T`'s own encoding
         let len = decoder.read_usize()?;
-        let number_of_bytes = len.div_ceil(bits_of::<u8>());
-        let byte_vec = decoder.read_raw_bytes(number_of_bytes)?;
-        let mut vec = BitVec::new(); // Write will resize as needed.
-        let written = vec.write(byte_vec.as_slice())?;
-        assert!(
-            written == number_of_bytes,
-            "Should write the same number of bytes ({written}) as had been stored ({number_of_bytes})"
-        );
+        let number_of_elements = len.div_ceil(bits_of::<T>());
+        let mut elements = Vec::with_capacity(number_of_elements.min(1 << 16));
+
+        for _ in 0..number_of_elements {
+            elements.push(T::decode(decoder, plugin, session)?);
+        }
+
+        let mut vec = BitVec::<T, O>::try_from_vec(elements).map_err(|_| {
+            io::Error::new(
+                io::ErrorKind::InvalidData,
+                "bit vector is too long for its storage type",
+            )
+        })?;
         vec.truncate(len); // Ensure trailing bits aren't added.
         Ok(vec)
     }
